@@ -4,8 +4,9 @@ Proof: lean/XvcRepo/XvcRepo/Props/C07.lean (micro-step decomposition of the per-
 Search/tie on the implementation: every state-changing command is killed (strace -e inject=...:signal=KILL:when=k) just
 before each of its file-system mutating system calls; after every kill the oracles check: later commands load the
 repository, objects of earlier versions are intact, every byte string that was in the workspace is still in the workspace
-or in the cache, every cache object hashes to its address, and re-running the command followed by `xvc file recheck`
-reaches the state of an uninterrupted twin.
+or in the cache, every cache object hashes to its address, re-running the command followed by `xvc file recheck`
+reaches the state of an uninterrupted twin, and neither the re-run nor what a user does next with the targets of the killed
+command (`recheck` with another method, `recheck --force`) destroys bytes that exist nowhere else.
 """
 import os, re, shutil, subprocess, json, hashlib
 from concurrent.futures import ThreadPoolExecutor
@@ -178,6 +179,35 @@ def clone(sb, name):
     return c
 
 
+FOLLOW_UPS = [['--recheck-method', 'symlink'], ['--recheck-method', 'hardlink'], ['--recheck-method', 'copy'], ['--force']]
+
+
+def follow_ups(chk, sb, targets, where, cname):
+    """(g) After the kill (and after the re-run) the user asks for the targets of the killed command with another recheck
+    method and with --force.  A killed `track` leaves its target on record, in the workspace, and NOT in the cache (the
+    records are saved before the rename into the cache; a re-run does not repair that): recheck has nothing to restore the
+    file from and must leave it alone.  Without --force the bytes that were at a target are afterwards in the workspace or
+    in the cache; with --force they may only give way to the object of the recorded version."""
+    fails = []
+    for extra in FOLLOW_UPS:
+        before = Obs(sb)
+        had = {t: rc.read_through(before, t) for t in targets}
+        r, _, e = sb.x('--skip-git', 'file', 'recheck', '--no-parallel', *extra, *targets)
+        inv, after = inventory(sb)
+        chk.count(f"follow-up:recheck {' '.join(extra)}:rc={r}")
+        for t, b in had.items():
+            if b is None or b in inv:
+                continue
+            rec = after.recs.get(t)
+            obj = after.cache.get(rc.rec_addr(rec, t)) if rec and rec['cur'] else None
+            if extra == ['--force'] and obj is not None and rc.read_through(after, t) == obj['bytes']:
+                continue                      # --force replaced an edited file by the committed version: what it is for
+            fails.append((f"{where}, then `xvc file recheck {' '.join(extra)} {t}` (rc={r} {e[-160:].strip()}): the {len(b)} bytes {b[:20]!r} that were at {t} "
+                          f"are neither in the workspace nor in the cache" + ('' if obj is not None else '; the recorded version of the path is not in the cache either'),
+                          {'kind': 'bytes-lost-by-follow-up', 'cmd': cname, 'follow_up': ' '.join(extra)}))
+    return fails
+
+
 def run_one(chk, xvc, base, cname, argv, targets, k, trace_ref, table):
     """kill before the k-th mutating syscall of the worker thread; returns list of (msg, sig)"""
     fails = []
@@ -238,12 +268,11 @@ def run_one(chk, xvc, base, cname, argv, targets, k, trace_ref, table):
             fails.append((f'{where}: ' + msg, dict(sig, at=f'{at[0]}:{at[1]}')))
     # (e) re-run + recheck converges to the uninterrupted twin
     if r1 == 0:
+        fu = clone(sb, f'{cname}-{sc_name}{sc_j}-fu') if targets else None          # the killed state itself, for (g)
         r2, _, e2 = sb.x(*(['--skip-git'] + arg2))
         r3, _, e3 = sb.x('--skip-git', 'file', 'recheck')
         got = canon(Obs(sb), table)
         fails.append(('__state__', got, where, at, (r2, e2[-200:]), phase))
-    if getattr(sb, 'xdev_tmp', None):
-        shutil.rmtree(sb.xdev_tmp, ignore_errors=True)
         # (f) the re-run and the recheck destroy nothing either: a partial file left by the killed run must not be
         # taken for the user's file while the only complete copy is deleted
         inv2, _ = inventory(sb)
@@ -254,6 +283,14 @@ def run_one(chk, xvc, base, cname, argv, targets, k, trace_ref, table):
         for b in lost2:
             fails.append((f'{where}: after re-running the command (rc={r2}) and `xvc file recheck` the {len(b)} bytes {b[:20]!r} that were in the '
                           f'workspace before the killed command are neither in the workspace nor in the cache', {'kind': 'bytes-lost-after-rerun', 'cmd': cname}))
+        # (g) what a user does next with the path the killed command was about: materialise it another way, or force it back.
+        # Once on the state the re-run and the recheck reached, once on the killed state itself.
+        fails += follow_ups(chk, sb, targets, where + ', then re-run and `xvc file recheck`', cname)
+        if fu is not None:
+            fails += follow_ups(chk, fu, targets, where, cname)
+            fu.cleanup()
+    if getattr(sb, 'xdev_tmp', None):
+        shutil.rmtree(sb.xdev_tmp, ignore_errors=True)
     sb.cleanup()
     return fails
 
@@ -325,8 +362,9 @@ def run(chk):
     chk.extra['rule'] = (f'{len(names)} state-changing commands on a prepared repository (3 tracked files with history, a symlinked duplicate pair, an uncommitted edit, a local storage); '
                          'each command is killed (one process per kill point) at the j-th invocation of system call s, for every mutating call name s other than the opens and every j up to the '
                          'largest count a thread of the reference run reached (strace keeps one injection counter per call name and thread), i.e. just before every mutating call of the '
-                         'thread that gets there first; then the six oracles are evaluated (loads, old versions intact, workspace bytes survive, no partial object, re-run + recheck '
-                         'converges to the uninterrupted twin, the re-run destroys nothing either); '
+                         'thread that gets there first; then the seven oracles are evaluated (loads, old versions intact, workspace bytes survive, no partial object, re-run + recheck '
+                         'converges to the uninterrupted twin, the re-run destroys nothing either, and neither do the follow-up commands `recheck --recheck-method symlink|hardlink|copy` '
+                         'and `recheck --force` on the targets of the killed command, run both on the killed state and after the re-run); '
                          'a case is one (command, kill point) pair; all are distinct and non-trivial')
     chk.extra['exhaustive'] = True
     chk.extra['exhaustive_part'] = 'all kill points of the listed commands on the prepared repository'
